@@ -350,6 +350,33 @@ pub(crate) fn image_model(src_a: &[u8; 3], src_b: &[u8; 2], junk: &[u8; 3], deco
     }
 }
 
+/// the `dir` stream under the model, zero padded to 4100 bytes (>= 4096: such a stream lives in regular sectors) -- two 4096-byte sectors
+const DIR_MODEL_BIG: Buf<{ 2 * SECTOR }> = {
+    let mut d: Buf<{ 2 * SECTOR }> = Buf::new();
+    d.push(0x01);
+    dir_stream(&mut d, (b"A", b"SB", 0), (b"B", b"SA", 3));
+    d
+};
+const DIR_MODEL_BIG_LEN: usize = 4100;
+
+/// image 3 (model D): as image 2, but the `dir` stream is padded to 4100 bytes and stored in two regular 4096-byte sectors chained by
+/// the FAT (every loop of the run then has at most 3 iterations)
+pub(crate) fn image_model_big(src_a: &[u8; 3], src_b: &[u8; 2], junk: &[u8; 3]) -> Cfb {
+    let sb = [0x01, src_a[0], src_a[1], src_a[2]];
+    let sa = [junk[0], junk[1], junk[2], 0x01, src_b[0], src_b[1]];
+    let mut mini = Mini::new();
+    let d_sa = mini.add("SA", &sa);
+    let d_sb = mini.add("SB", &sb);
+    let directories = Vec::from([d_sa, Directory { name: String::from("dir"), start: 0, len: DIR_MODEL_BIG_LEN }, d_sb]);
+    Cfb {
+        directories,
+        sectors: Sectors::new(SECTOR, DIR_MODEL_BIG.b.to_vec()),
+        fats: [1, ENDOFCHAIN].to_vec(),
+        mini_sectors: Sectors::new(64, mini.data.b[..mini.data.n].to_vec()),
+        mini_fats: mini.fat[..mini.nfat].to_vec(),
+    }
+}
+
 /// run the REAL from_cfb and compare with the format's meaning
 fn check_project(mut cfb: Cfb, src_a: &[u8], src_b: &[u8]) {
     let mut r: &[u8] = &[];
@@ -403,6 +430,19 @@ pub fn from_cfb_wiring() {
 #[kani::stub(decompress_stream, decompress_model)]
 pub fn from_cfb_wiring_decoys() {
     wiring_case(true);
+}
+
+#[kani::proof]
+#[kani::unwind(4)]
+#[kani::stub(encoding_rs::Encoding::decode, decode_ascii_1252_stub)]
+#[kani::stub(codepage::to_encoding, to_encoding_1252_stub)]
+#[kani::stub(decompress_stream, decompress_model)]
+pub fn from_cfb_wiring_big() {
+    let x: [u8; 3] = kani::any();
+    let y: [u8; 2] = kani::any();
+    let junk: [u8; 3] = kani::any();
+    kani::cover!(x[0] != y[0] && junk[0] == 0x01);
+    check_project(image_model_big(&x, &y, &junk), &x, &y);
 }
 
 // ---------------------------------------------------------------------------------------------------------------------------
